@@ -132,7 +132,7 @@ def run_check(pid, tier, seed):
             for ci, ch in enumerate(chunk(list(parts), maxw * 8)):
                 jobs.append((check, ch, budget))
         # the whole property stays within total_s of wall time even if no partition exhausts (budgets are caps)
-        total_s = getattr(mod, 'TOTAL_S', {'quick': 420, 'thorough': 1500})[tier]
+        total_s = getattr(mod, 'TOTAL_S', {'quick': 420, 'thorough': 900})[tier]
         rounds = -(-len(jobs) // NCPU)
         cap = max(20, total_s // max(1, rounds))
         jobs = [(c, ch, min(b, cap)) for c, ch, b in jobs]
